@@ -62,7 +62,43 @@ Definition schema_table : list (string * schema) :=
    ("WorkchainFormat0", s_WorkchainFormat0);
    ("WcSplitMergeTimings", s_WcSplitMergeTimings);
    ("PrecompiledSmc", s_PrecompiledSmc);
-   ("CatchainConfig", s_CatchainConfig)].
+   ("CatchainConfig", s_CatchainConfig);
+   ("ConfigParam0", s_ConfigParamAddr);
+   ("ConfigParam1", s_ConfigParamAddr);
+   ("ConfigParam2", s_ConfigParamAddr);
+   ("ConfigParam3", s_ConfigParamAddr);
+   ("ConfigParam4", s_ConfigParamAddr);
+   ("BurningConfig", s_BurningConfig);
+   ("ConfigParam5", s_ConfigParam5);
+   ("ConfigParam6", s_ConfigParam6);
+   ("ConfigParam7", s_ConfigParam7);
+   ("ConfigParam8", s_ConfigParam8);
+   ("ConfigProposalSetup", s_ConfigProposalSetup);
+   ("ConfigVotingSetup", s_ConfigVotingSetup);
+   ("ConfigParam11", s_ConfigParam11);
+   ("ConfigProposal", s_ConfigProposal);
+   ("ConfigParam13", s_ConfigParam13);
+   ("ConfigParam14", s_ConfigParam14);
+   ("ConfigParam15", s_ConfigParam15);
+   ("ConfigParam16", s_ConfigParam16);
+   ("ConfigParam17", s_ConfigParam17);
+   ("ConfigParam22", s_ConfigParamBlockLimits);
+   ("ConfigParam23", s_ConfigParamBlockLimits);
+   ("ConfigParam24", s_ConfigParamFwdPrices);
+   ("ConfigParam25", s_ConfigParamFwdPrices);
+   ("ConfigParam28", s_ConfigParam28);
+   ("ConsensusConfig", s_ConsensusConfig);
+   ("ConfigParam29", s_ConfigParam29);
+   ("MisbehaviourPunishmentConfig", s_MisbehaviourPunishmentConfig);
+   ("ConfigParam40", s_ConfigParam40);
+   ("SizeLimitsConfig", s_SizeLimitsConfig);
+   ("ConfigParam43", s_ConfigParam43);
+   ("JettonBridgePrices", s_JettonBridgePrices);
+   ("OracleBridgeParams", s_OracleBridgeParams);
+   ("PrecompiledContractsConfig", s_PrecompiledContractsConfig);
+   ("SuspendedAddressList", s_SuspendedAddressList);
+   ("AccountDispatchQueue", s_AccountDispatchQueue);
+   ("BlockInfoPart", s_BlockInfoPart)].
 
 Fixpoint lookup (nm : string) (l : list (string * schema)) : option schema :=
   match l with
